@@ -8,14 +8,21 @@ From Coq Require Import ExtrOcamlBasic.
 From LC.Cont Require SetImpl Heap.
 From LC.CP Require Lexer LexSpec LexEquiv.
 From LC.Base Require Utf8.
-From LC.V2 Require Tok TokTables Reader SSet Match.
+From LC.V2 Require Tok TokTables Reader SSet Match Normalize TokWF ScoringProof.
 From LC.Base Require Float64 Sort.
 
 Extraction Blacklist List String Int.
+
+(* The standard library defines [rev] by appending at the end, which is
+   quadratic; the models reverse long accumulators (tokens, runes).  This is the
+   only extraction directive beyond ExtrOcamlBasic: Coq's [List.rev] is
+   realised by OCaml's linear [List.rev] (same function on lists; stdlib lemma
+   [rev_alt : rev l = rev_append l []] is its justification). *)
+Extract Constant List.rev => "Stdlib.List.rev".
 
 Separate Extraction
   SetImpl.run SetImpl.step
   Heap.run Heap.empty Heap.lookup Heap.arr Heap.idx
   Lexer.parse Lexer.original Lexer.repaired Lexer.chunks LexSpec.spec_parse LexEquiv.lang_wf'
-  Match.match_tokens Float64.of_bits Float64.to_bits Float64.of_Z TokTables.in_ranges
+  ScoringProof.src ScoringProof.dst TokWF.tables_wf Normalize.normalize Match.match_tokens Float64.of_bits Float64.to_bits Float64.of_Z TokTables.in_ranges
   Reader.tokenize_stream Tok.tokenize_whole Tok.tokenize_runes TokTables.mk_tables Utf8.decode_all Utf8.encode_all.
